@@ -16,7 +16,9 @@ type Matcher interface {
 // ancestors matches, later patterns override earlier ones, '!' negates.
 // moby/patternmatcher.MatchesOrParentMatches is taken as the meaning of a
 // pattern list (a dependency, not code under test).
-type refMatcher struct{ pm *patternmatcher.PatternMatcher }
+type refMatcher struct {
+	pm *patternmatcher.PatternMatcher
+}
 
 func (m *refMatcher) Match(p string) (bool, error) { return m.pm.MatchesOrParentMatches(p) }
 
@@ -89,11 +91,11 @@ type FilterEntry struct {
 
 // RefFilterResult is what the naive evaluation reports.
 type RefFilterResult struct {
-	Reported []string
-	MapCalls map[string]int // how often map was consulted per path
-	Weak     bool           // a lazily emitted ancestor was skipped (order of map calls unspecified)
-	Pruneable int           // directories neither kept nor ancestors of anything reported
-	Lazy      int           // lazily emitted ancestors
+	Reported          []string
+	MapCalls          map[string]int // how often map was consulted per path
+	Weak              bool           // a lazily emitted ancestor was skipped (order of map calls unspecified)
+	Pruneable         int            // directories neither kept nor ancestors of anything reported
+	Lazy              int            // lazily emitted ancestors
 	NegationOverrides bool
 }
 
